@@ -301,15 +301,6 @@ theorem loaded_smodel_probabilities (tol : Rat) (S A : Nat) (s s' : Stream) (m :
 example : (ratIO (1 / 1000000)).sparseRowOk [1 + 1 / 2000000, -1 / 2000000] = true ∧
     (ratIO (1 / 1000000)).rowOk [1 + 1 / 2000000, -1 / 2000000] = false := by decide +kernel
 
-/-! ### obligations over the regenerated module: the stream abstraction of the model -/
-
-/-- obligation: every reader touches its stream only through formatted extraction, `peek` and `setstate(failbit)` —
-    what makes "the stream is the list of its unread white-space separated tokens" a sound reading of the code -/
-theorem IOPrec_formatted_only : AITB.Gen.IOPrec.formattedOnly.all (·.2) = true := by decide
-
-/-- obligation: no reader clears or reconfigures its stream — failbit is sticky (`loadSeq`, `Rd.bind`) -/
-theorem IOPrec_never_clears : AITB.Gen.IOPrec.neverClears.all (·.2) = true := by decide
-
 /-! ### consecutive loads on one stream (failbit is sticky) -/
 
 /-- the stream between two `operator>>`: its unread tokens, or failed (`none`); nobody calls `clear()` -/
